@@ -319,6 +319,96 @@ def c07_handleLazy (j : Json) (op : String) (d : Nat) (dflt : Int) : Except Stri
     pure { agree, spec, model := mrows, why := if why1.isEmpty then why2 else why1,
            tags := tags ++ (if rows.isEmpty then ["result-empty"] else ["result-nonempty"]) }
 
+/-- one traversal op on the case `j` (which carries its own `impl` observation) -/
+def c07_dispatch (j : Json) (op : String) (d : Nat) (dflt : Int) : Except String Verdict :=
+  let cfg := c07_cfg j
+  match op with
+  | "range" | "occ" | "active" => c07_handleRange j op d dflt
+  | "iter" => if cfg.fmt == .U then c07_handleShape j "ashape" d dflt else c07_handleRange j "occ" d dflt
+  | "rshape" | "shape" | "ashape" | "rshaperef" | "shaperef" | "ashaperef" => c07_handleShape j op d dflt
+  | "corshape" | "coshape" | "coashape" | "corshaperef" | "coshaperef" | "coashaperef" => c07_handleCo j op d dflt
+  | "project" | "prune" => c07_handleLazy j op d dflt
+  | o => throw s!"C07: unknown op {o}"
+
+/-- several steps on the same fiber objects: traversals, read-only calls ("touch") and growth
+    (`append`, assignment through `getPayloadRef`).  The model has no hidden state: every
+    traversal is the model's function of the *current* trees and the rank configuration, so an
+    earlier call may influence a later traversal only through the trees. -/
+def c07_handleSeq (j : Json) (d : Nat) (dflt : Int) : Except String Verdict := do
+  let steps ← fArr j "steps"
+  let obs ← asList (c07_implField j "steps")
+  if steps.length != obs.length then throw "C07 seq: steps/impl length mismatch"
+  let t0 ← field j "t"
+  let others := (fArr j "others").toOption.getD []
+  let mut state : List Json := t0 :: others
+  let mut agree := true
+  let mut spec := true
+  let mut why := ""
+  let mut tags : List String := ["seq"]
+  let mut grown := false
+  let mut touched := false
+  for (st, ob) in steps.zip obs do
+    let op ← fStr st "op"
+    let before ← field ob "before_all"
+    let afterAll ← asList (← field ob "after_all")
+    if !(c07_same before (jList state)) then
+      agree := false
+      if why.isEmpty then why := s!"state before step {op} differs from the model's"
+    match op with
+    | "append" | "refassign" =>
+      if d != 0 then throw "C07 seq: growth steps are modelled for leaf fibers only"
+      let cur : T 1 ← parseTree 1 (state.headD Json.null)
+      let l := (show List (Int × T 0) from cur)
+      let c ← fInt st "c"
+      let v ← fInt st "v"
+      let nt : Option (T 1) :=
+        if op == "append" then
+          (match l.getLast? with
+           | some e => if e.1 < c then some (show T 1 from l ++ [(c, (show T 0 from v))]) else none
+           | none => some (show T 1 from [(c, (show T 0 from v))]))
+        else some (updateAt (fun _ => v) 1 (refAt dflt 1 cur [c]) [c])
+      match nt with
+      | none =>
+        let ok := (ob.getObjVal? "err").toOption.bind (·.getStr?.toOption) == some "rejected"
+        if !ok then agree := false; if why.isEmpty then why := "append of a non-increasing coordinate not rejected"
+      | some nt =>
+        let exp := treeToJson 1 nt :: state.drop 1
+        if !(c07_same (jList exp) (jList afterAll)) then
+          agree := false
+          if why.isEmpty then why := s!"fiber after {op} differs from model"
+        grown := true
+      state := afterAll
+      tags := if tags.contains op then tags else tags ++ [op]
+    | "touch" =>
+      if !(c07_same (jList state) (jList afterAll)) then
+        agree := false; spec := false
+        if why.isEmpty then why := "a read-only call changed the fiber"
+      touched := true
+      let w := "touch:" ++ fStrD st "what" "?"
+      tags := if tags.contains w then tags else tags ++ [w]
+    | _ =>
+      -- the step as a stand-alone case on the current trees, with this step's observation
+      let isCo := op.startsWith "co"
+      let sub0 := (j.mergeObj st).setObjVal! "impl" ob
+      let sub := if isCo then (sub0.setObjVal! "ts" (jList state)).setObjVal! "t" Json.null
+        else sub0.setObjVal! "t" (state.headD Json.null)
+      let v ← c07_dispatch sub op d dflt
+      if !v.agree then
+        agree := false
+        if why.isEmpty then why := s!"step {op}: {v.why}"
+      if !v.spec then
+        spec := false
+        if why.isEmpty then why := s!"step {op}: {v.why}"
+      let extra := [s!"step:{op}"] ++ (if grown then ["traversal-after-growth"] else []) ++
+        (if touched then ["traversal-after-touch"] else []) ++ v.tags.filter (fun t => t == "absent-coord" || t == "inserted" || t == "skip-empty")
+      tags := tags ++ extra.filter (fun t => !tags.contains t)
+      -- the handlers have compared the observation's `after` with the model's resulting trees
+      state := if isCo then afterAll else (afterAll.headD Json.null) :: state.drop 1
+      if !isCo && !(c07_same (jList (afterAll.drop 1)) (jList (state.drop 1))) then
+        agree := false
+        if why.isEmpty then why := s!"step {op} changed a fiber it does not involve"
+  pure { agree, spec, why, tags }
+
 def handleC07 (j : Json) : Except String Verdict := do
   let op ← fStr j "op"
   let d ← fNat j "d"
@@ -330,15 +420,12 @@ def handleC07 (j : Json) : Except String Verdict := do
   let okTs := match fArr j "ts" with
     | .ok l => l.all (fun tj => match parseTree (d + 1) tj with | .ok t => wfB (d + 1) t | _ => false)
     | _ => true
-  if !(okT && okTs) then return { agree := true, spec := true, tags := ["OUT_OF_MODEL"] }
+  let okOthers := match fArr j "others" with
+    | .ok l => l.all (fun tj => match parseTree (d + 1) tj with | .ok t => wfB (d + 1) t | _ => false)
+    | _ => true
+  if !(okT && okTs && okOthers) then return { agree := true, spec := true, tags := ["OUT_OF_MODEL"] }
   let cfg := c07_cfg j
-  let v ← (match op with
-    | "range" | "occ" | "active" => c07_handleRange j op d dflt
-    | "iter" => if cfg.fmt == .U then c07_handleShape j "ashape" d dflt else c07_handleRange j "occ" d dflt
-    | "rshape" | "shape" | "ashape" | "rshaperef" | "shaperef" | "ashaperef" => c07_handleShape j op d dflt
-    | "corshape" | "coshape" | "coashape" | "corshaperef" | "coshaperef" | "coashaperef" => c07_handleCo j op d dflt
-    | "project" | "prune" => c07_handleLazy j op d dflt
-    | o => throw s!"C07: unknown op {o}")
+  let v ← (if op == "seq" then c07_handleSeq j d dflt else c07_dispatch j op d dflt)
   let extra := [s!"op:{op}", if cfg.fmt == .U then "fmt:U" else "fmt:C", s!"depth:{d + 1}", s!"dflt:{dflt}",
     fStrD j "kind" "free"] ++ (if cfg.shape.isSome then ["shape-declared"] else []) ++
     (if cfg.active.isSome then ["active-set"] else [])
